@@ -48,6 +48,8 @@ type lexBad struct {
 }
 
 type lexRes struct {
+	DG      uint64         `json:"dg"`
+	Log     []string       `json:"log,omitempty"`
 	ID      int            `json:"id"`
 	Evals   int            `json:"evals"`
 	Skipped int            `json:"skipped"`
@@ -238,6 +240,7 @@ func lexHandle(in []byte) []byte {
 		return []byte(`{"error":"bad case"}`)
 	}
 	res := lexRes{ID: c.ID, PerAPI: map[string]int{}}
+	od := obsBegin()
 	if c.V == "deep" {
 		res.Skipped++
 		out, _ := json.Marshal(res)
@@ -269,6 +272,7 @@ func lexHandle(in []byte) []byte {
 			// copy so that every API sees a private buffer of exact length
 			bb := append(make([]byte, 0, len(b)), b...)
 			acc, det, pan := callLex(a, bb)
+			obsAdd(a.name, acc, det, pan)
 			res.Evals++
 			res.PerAPI[a.name]++
 			kind := ""
@@ -289,6 +293,7 @@ func lexHandle(in []byte) []byte {
 			}
 		}
 	}
+	res.DG, res.Log = od.sum, od.log
 	out, _ := json.Marshal(res)
 	return out
 }
@@ -380,6 +385,7 @@ func lexMain(args []string) int {
 	workers := fs.Int("workers", runtime.NumCPU(), "worker processes")
 	envs := fs.String("env", "", "comma separated KEY=VALUE for the workers")
 	maxBad := fs.Int("maxbad", 400, "max disagreement records kept")
+	digests := fs.String("digests", "", "write per-case observation digests to this file")
 	fs.Parse(args)
 	t0 := time.Now()
 	f, err := os.Open(*dump)
@@ -392,6 +398,7 @@ func lexMain(args []string) int {
 	if *envs != "" {
 		sum.Env = strings.Split(*envs, ",")
 	}
+	var dgs digestFile
 	cases := make(chan []byte, 1024)
 	var perr error
 	go func() {
@@ -422,6 +429,7 @@ func lexMain(args []string) int {
 			var c lexCase
 			json.Unmarshal(cl, &c)
 			sum.Cases++
+			dgs.add(r.ID, r.DG)
 			sum.ByVerdict[c.V]++
 			sum.Evals += r.Evals
 			sum.Skipped += r.Skipped
@@ -456,6 +464,7 @@ func lexMain(args []string) int {
 		return 2
 	}
 	sum.WallS = time.Since(t0).Seconds()
+	dgs.write(*digests)
 	b, _ := json.MarshalIndent(sum, "", " ")
 	if *out != "" {
 		os.WriteFile(*out, b, 0o644)
